@@ -85,6 +85,17 @@ func (s Scope) With(name string, expr Expr) Scope {
 	return Scope{s.m.With(name, expr)}
 }
 
+// sameBinding reports whether two bindings of one name agree. Values are compared as values: their
+// printed forms can coincide although they differ (1 and "1", <<1>> and 1\<<1>>).
+func sameBinding(a, b Expr) bool {
+	if av, is := a.(Value); is {
+		if bv, is := b.(Value); is {
+			return av.Equal(bv)
+		}
+	}
+	return a.String() == b.String()
+}
+
 // MatchedWith returns a new scope. New keys are added as With,
 // but existing keys fail unless the new value equals the existing value
 func (s Scope) MatchedWith(name string, expr Expr) (Scope, error) {
@@ -93,7 +104,7 @@ func (s Scope) MatchedWith(name string, expr Expr) (Scope, error) {
 	}
 
 	if v, exists := s.Get(name); exists {
-		if v.String() != expr.String() {
+		if !sameBinding(v, expr) {
 			return Scope{}, fmt.Errorf("%s is redefined differently %s vs %s", name, v, expr)
 		}
 	}
@@ -124,7 +135,7 @@ func (s Scope) MatchedUpdate(t Scope) (Scope, error) {
 	for e := s.Enumerator(); e.MoveNext(); {
 		name, v := e.Current()
 		if expr, exists := t.Get(name); exists {
-			if expr.String() != v.String() {
+			if !sameBinding(expr, v) {
 				return Scope{}, fmt.Errorf("the value of %s is different in both scopes", name)
 			}
 		}
